@@ -5,6 +5,7 @@ import (
 	"encoding/json"
 	"fmt"
 	rhp2 "go.sia.tech/core/rhp/v2"
+	"math"
 	"math/big"
 	"sort"
 	"strconv"
@@ -424,6 +425,17 @@ func RHP2Proof(data []byte, idx uint64) []types.Hash256 {
 	return append(p, rhp2.ConvertProofOrdering(rhp2.BuildSectorRangeProof(roots, si, si+1), si)...)
 }
 
+// realRN maps the model's largest revision numbers (TLC's largest integers) to the real ones.
+func realRN(rn uint64) uint64 {
+	switch rn {
+	case 2147483647:
+		return math.MaxUint64
+	case 2147483646:
+		return math.MaxUint64 - 1
+	}
+	return rn
+}
+
 // inflate realises AbsTx.Big: the first two siafund (siacoin) outputs become 2^63 SF (2^127 H) larger than stated (a
 // single output is split in two first), so that the outputs still balance the inputs modulo 2^64 (2^128) and only so.
 func inflate(big string, sco []types.SiacoinOutput, sfo []types.SiafundOutput) ([]types.SiacoinOutput, []types.SiafundOutput) {
@@ -453,7 +465,7 @@ func inflate(big string, sco []types.SiacoinOutput, sfo []types.SiafundOutput) (
 func (s *Sim) c1(c AbsC1) types.FileContract {
 	return types.FileContract{Filesize: c.Size, FileMerkleRoot: s.fileRoot(c.Size), WindowStart: c.Ws, WindowEnd: c.We,
 		Payout: cur(c.Pay), ValidProofOutputs: s.outs(c.Vo), MissedProofOutputs: s.outs(c.Mo),
-		UnlockHash: s.K.Addr(c.Owner), RevisionNumber: c.Rn}
+		UnlockHash: s.K.Addr(c.Owner), RevisionNumber: realRN(c.Rn)}
 }
 
 func (s *Sim) c2(c AbsC2) types.V2FileContract {
@@ -818,6 +830,24 @@ func (b *BlockCtx) buildV1(t AbsTx) (types.Transaction, error) {
 			if x.parent == txn.Signatures[i].ParentID {
 				sg = x
 			}
+		}
+		if strings.HasPrefix(sg.auth, "siglockP") {
+			// a time-locked signature over an explicit list of fields (everything the transaction has)
+			tl, _ := strconv.ParseUint(strings.TrimPrefix(sg.auth, "siglockP"), 10, 64)
+			txn.Signatures[i].Timelock = tl
+			seq := func(n int) (r []uint64) {
+				for k := 0; k < n; k++ {
+					r = append(r, uint64(k))
+				}
+				return
+			}
+			txn.Signatures[i].CoveredFields = types.CoveredFields{SiacoinInputs: seq(len(txn.SiacoinInputs)), SiacoinOutputs: seq(len(txn.SiacoinOutputs)),
+				SiafundInputs: seq(len(txn.SiafundInputs)), SiafundOutputs: seq(len(txn.SiafundOutputs)), MinerFees: seq(len(txn.MinerFees)),
+				FileContracts: seq(len(txn.FileContracts)), FileContractRevisions: seq(len(txn.FileContractRevisions)), StorageProofs: seq(len(txn.StorageProofs)),
+				ArbitraryData: seq(len(txn.ArbitraryData))}
+			sig := s.K.SK(sg.name).SignHash(s.CS.PartialSigHash(txn, txn.Signatures[i].CoveredFields))
+			txn.Signatures[i].Signature = sig[:]
+			continue
 		}
 		if strings.HasPrefix(sg.auth, "siglock") {
 			tl, _ := strconv.ParseUint(strings.TrimPrefix(sg.auth, "siglock"), 10, 64)
